@@ -65,13 +65,15 @@ def labelOf? (j : Json) : Option Label := do
   | [.str "tick", d] => some (.tick (← jNat? d))
   | [.str "expire", i] => some (.expire (← jStr? i))
   | [.str "foreign", i, r] => some (.foreign (← jStr? i) (← jOpt? recOf? r))
+  | [.str "wake", i] => some (.wake (← jStr? i))
   | _ => none
 
 def snapshot (s : State) (ids : List Identity) : Json :=
   Json.mkObj [("now", jInt s.now),
     ("status", .arr (s.status.map (fun e => Json.arr #[.str e.1, recJson e.2])).toArray),
     ("ops", Json.mkObj (ids.filterMap (fun i => (s.ops i).map (fun o => (i,
-      Json.mkObj [("alive", .bool o.alive), ("paused", .bool o.paused), ("prio", jInt o.prio)])))))]
+      Json.mkObj [("alive", .bool o.alive), ("paused", .bool o.paused), ("prio", jInt o.prio),
+                  ("sleeping", .bool o.sleeping)])))))]
 
 def handle : DrvHandler := fun op args =>
   match op, args with
